@@ -299,6 +299,52 @@ pub struct SysCfg {
     pub chain_id: u64,
     /// reward beneficiary handler flag (C22)
     pub reward: bool,
+    /// F5: replace the identity precompile (0x04) by a stateful one that can be armed to
+    /// return a fatal error at its k-th call (`arm_precompile_fault`)
+    #[serde(default)]
+    pub fault_precompile: bool,
+}
+
+// ---------------------------------------------------------------- F5: fatal precompile
+
+thread_local! {
+    /// (calls so far, fail at call index or u64::MAX, fired)
+    static PRECOMPILE_FAULT: std::cell::Cell<(u64, u64, u64)> = const { std::cell::Cell::new((0, u64::MAX, 0)) };
+}
+
+/// Arm the faulty identity precompile of the system that runs next on this thread.
+pub fn arm_precompile_fault(at: Option<u64>) {
+    PRECOMPILE_FAULT.with(|c| c.set((0, at.unwrap_or(u64::MAX), c.get().2)));
+}
+pub fn precompile_faults_fired() -> u64 {
+    PRECOMPILE_FAULT.with(|c| c.get().2)
+}
+
+struct FaultyIdentity;
+
+impl revm::ContextStatefulPrecompile<AnyDb> for FaultyIdentity {
+    fn call(&self, bytes: &Bytes, gas_limit: u64, _ctx: &mut revm::InnerEvmContext<AnyDb>) -> revm::precompile::PrecompileResult {
+        let (calls, at, fired) = PRECOMPILE_FAULT.with(|c| c.get());
+        PRECOMPILE_FAULT.with(|c| c.set((calls + 1, at, fired + (calls == at) as u64)));
+        if calls == at {
+            return Err(revm::precompile::PrecompileErrors::Fatal { msg: "injected fatal precompile error".into() });
+        }
+        // identity: 15 + 3 per word
+        let gas = 15 + 3 * ((bytes.len() as u64 + 31) / 32);
+        if gas > gas_limit {
+            return Err(revm::precompile::PrecompileError::OutOfGas.into());
+        }
+        Ok(revm::precompile::PrecompileOutput::new(gas, bytes.clone()))
+    }
+}
+
+fn faulty_precompile_register(h: &mut revm::handler::register::EvmHandler<'_, AnyInsp, AnyDb>) {
+    let prev = h.pre_execution.load_precompiles.clone();
+    h.pre_execution.load_precompiles = std::sync::Arc::new(move || {
+        let mut p = prev();
+        p.to_mut().insert(Address::with_last_byte(4), revm::ContextPrecompile::ContextStateful(std::sync::Arc::new(FaultyIdentity)));
+        p
+    });
 }
 
 impl SysCfg {
@@ -439,6 +485,9 @@ impl Sys {
             b = b.with_handler(revm::Handler::mainnet_with_spec(spec, false));
         }
         let mut evm = if cfg.insp != InspKind::None { b.append_handler_register(inspector_handle_register).build() } else { b.build() };
+        if cfg.fault_precompile {
+            evm = evm.modify().append_handler_register(faulty_precompile_register).build();
+        }
         {
             let env = &mut evm.context.evm.env;
             env.cfg.chain_id = cfg.chain_id;
